@@ -93,6 +93,23 @@ def lean_gate(prop, tier):
     return out
 
 
+def guarded(prop, res, fn):
+    """run a check; an exception escaping from the implementation on a call the check considers valid, or
+    the harness failing to digest what the implementation returned, is a finding, not an internal error"""
+    import core
+    try:
+        fn(res)
+    except Exception as e:  # noqa: BLE001
+        tb = traceback.extract_tb(e.__traceback__)
+        in_impl = any(os.path.realpath(f.filename).startswith(os.path.realpath(core.REPO) + os.sep) for f in tb)
+        where = "; ".join("%s:%d" % (os.path.basename(f.filename), f.lineno) for f in tb[-3:])
+        if in_impl:
+            res.fail("property", "%s: a call the check considers valid raised %s: %s (%s)" % (prop, type(e).__name__, e, where), None)
+        else:
+            res.fail("correspondence", "%s: the harness could not digest what the implementation returned: %s: %s (%s)" % (
+                prop, type(e).__name__, e, where), None)
+
+
 def run_shard(args):
     """one shard of a thorough run, in its own process"""
     prop, tier, seed, shard, nshards = args
@@ -102,7 +119,7 @@ def run_shard(args):
     res.shard, res.nshards = shard, nshards
     if shard == 0:
         props.run_corpus(prop, res)
-    props.CHECKS[prop](res)
+    guarded(prop, res, props.CHECKS[prop])
     return dict(evaluations=res.evaluations, nontrivial=list(res.nontrivial), samples=res.samples, hist=res.hist,
                 failures=res.failures, traces=res.traces, notes=res.notes, rule=res.rule)
 
@@ -157,7 +174,13 @@ def main():
             run_thorough(prop, tier, seed, res)
         else:
             props.run_corpus(prop, res)
-            props.CHECKS[prop](res)
+            guarded(prop, res, props.CHECKS[prop])
+        if core.REENTRANT_STATS["calls"]:
+            res.hist["rate_calls_with_interleaved_nested_call"] = res.hist.get("rate_calls_with_interleaved_nested_call", 0) + core.REENTRANT_STATS["calls"]
+        import p_pred
+        for k_, v_ in p_pred.PRED_STATS.items():
+            if v_:
+                res.hist["predict_calls_" + k_] = v_
         for pr in gate["problems"]:
             res.fail("proof", pr, None)
         # ---- known findings
